@@ -552,6 +552,21 @@ def valid_mutations(max_steps=8):
     return st.lists(weighted(*alts), max_size=max_steps)
 
 
+def order_port_mutations(max_steps=14):
+    """Order links on nodes at the boundary of the port-offset rules: ops without value inputs / outputs,
+    more ports requested at creation than the signature has, ports left unconnected."""
+    from vlib.asts import weighted
+
+    alts = [
+        (4, st.tuples(st.just("add_node"), st.sampled_from(["sink0", "src0", "sink0", "src0", "custom", "noop", "dfg", "not"]), SEL, st.one_of(st.none(), st.integers(0, 3)), st.none()).map(list)),
+        (4, st.tuples(st.just("add_order_link"), SEL, SEL).map(list)),
+        (1, st.tuples(st.just("add_raw_order_link"), st.integers(0, 3), st.integers(0, 3)).map(list)),
+        (1, st.tuples(st.just("add_link"), SEL, OFF, SEL, OFF).map(list)),
+        (1, st.tuples(st.just("delete_node"), SEL).map(list)),
+    ]
+    return st.lists(weighted(*alts), min_size=4, max_size=max_steps)
+
+
 def holes_mutations():
     """Additions and links, then deletions only (several indices free at once, freed in any order, live
     nodes and link ends above and between them), then at most two additions."""
